@@ -1596,7 +1596,11 @@ MANIFEST = dict(
     'square root compared on squares; literal phase offsets for emitted '
     'tables (arbitrary small tables symbolic); constructor guards are '
     'transcendental FP: swept concretely; negative indexes documented as '
-    'unchecked by the code and outside the property',
+    'unchecked by the code and outside the property'
+    ' Concrete data-representation / scale / boundary probes of the real'
+    ' code (dtype, container and memory-layout variants, argument'
+    ' immutability, magnitudes) accompany the symbolic runs; they are'
+    ' differential runs, not solver verdicts.',
     technique='symbolic execution of real code on numpy object arrays + z3 '
     '(QF_LRA/NRA per path, QF_BV table queries over mux trees); '
     'counterexample replay with an exact rational oracle')
